@@ -1,5 +1,63 @@
-(* C05 — several types in one file: order-independent, idempotent, lossless merge. *)
+(* C05 — several types in one file: order-independent, idempotent, lossless merge.
+   Property theorems only; each is closed by `exact` of a lemma from Proofs/. *)
 From TsRs Require Import Base.Str Base.Outcome Gen.Tables Model.Merge Model.MergeSpec.
+From TsRs Require Import Proofs.Merge_algebra_proofs Proofs.Merge_bridge_proofs.
+From Coq Require Import Sorting.Permutation Sorting.Sorted.
+
+(* The textual merge of the Rust code (Model/Merge.v, a statement-by-statement transcription on
+   strings) computes, on well-formed texts, exactly the structured merge: union of the import groups
+   in normal form, the new block inserted in key order; and the in-place rewrite from offset
+   NOTE.len() leaves no stale tail. *)
+Theorem C05_merge_bridge :
+  forall im bs i,
+    norm_imports im = im ->
+    forallb wf_group im = true -> bs <> [] -> forallb wf_block bs = true -> wf_item i = true ->
+    merge_into_file (render_file im bs) (item_text i)
+    = Ok (render_file (norm_imports (im ++ it_imports i)) (insert_block (it_block i) bs)).
+Proof. exact merge_into_file_bridge. Qed.
+Print Assumptions C05_merge_bridge.
+
+(* The canonical file does not depend on the order of the items: imports ... *)
+Theorem C05_imports_order_free :
+  forall l l', Permutation l l' -> norm_imports l = norm_imports l'.
+Proof. exact norm_imports_perm. Qed.
+Print Assumptions C05_imports_order_free.
+
+(* ... are the union, nothing lost, nothing invented, each path and each name once ... *)
+Theorem C05_imports_union :
+  forall l p t,
+    (exists ts, In (p, ts) (norm_imports l) /\ In t ts) <-> (exists ts, In (p, ts) l /\ In t ts).
+Proof. exact norm_imports_spec. Qed.
+Print Assumptions C05_imports_union.
+
+Theorem C05_imports_once :
+  forall l, NoDup (map fst (norm_imports l)) /\ Forall (fun e => NoDup (snd e)) (norm_imports l).
+Proof. exact norm_imports_nodup. Qed.
+Print Assumptions C05_imports_once.
+
+(* ... and the declarations come out in key order, each exactly once, whatever the arrival order *)
+Theorem C05_blocks_order_free :
+  forall bs bs', keys_distinct bs -> Permutation bs bs' -> sort_blocks bs = sort_blocks bs'.
+Proof. exact sort_blocks_perm. Qed.
+Print Assumptions C05_blocks_order_free.
+
+Theorem C05_blocks_sorted_once :
+  forall bs, keys_distinct bs ->
+    StronglySorted (fun a b => str_ltb (key_of a) (key_of b) = true) (sort_blocks bs) /\
+    Permutation (sort_blocks bs) bs.
+Proof. intros bs H. split; [exact (sort_blocks_sorted bs H) | exact (sort_blocks_permutation bs)]. Qed.
+Print Assumptions C05_blocks_sorted_once.
+
+Theorem C05_canonical_order_free :
+  forall h h', keys_distinct (map it_block h) -> Permutation h h' -> canonical_file h = canonical_file h'.
+Proof. exact canonical_file_perm. Qed.
+Print Assumptions C05_canonical_order_free.
+
+(* every exported declaration is in the canonical file, intact (doc comment included) *)
+Theorem C05_canonical_lossless :
+  forall h i, In i h -> exists pre post, canonical_file h = pre ++ [nl] ++ it_block i ++ [nl] ++ post.
+Proof. exact canonical_file_lossless. Qed.
+Print Assumptions C05_canonical_lossless.
 
 (* Exporting a type that is already in the file changes nothing (file and registry). *)
 Theorem C05_reexport_noop :
@@ -8,3 +66,15 @@ Theorem C05_reexport_noop :
     export_raw st ident text = Ok st.
 Proof. intros st ident text old H1 H2. unfold export_raw. rewrite H1, H2. reflexivity. Qed.
 Print Assumptions C05_reexport_noop.
+
+(* Non-vacuity: three concrete items (doc comment, generics, overlapping imports) meet every
+   hypothesis, and two different orders with a repetition give the canonical file. *)
+Definition exA := {| it_ident := lit "A"; it_imports := [(lit "./x", [lit "X"; lit "Y"])]; it_block := lit "export type A = X | Y;" |}.
+Definition exB := {| it_ident := lit "B"; it_imports := [(lit "./w", [lit "W"]); (lit "./x", [lit "X"; lit "Z"])];
+                     it_block := lit "/** doc */" ++ [nl] ++ lit "export type B<T, U> = { a: W, };" |}.
+Definition exC := {| it_ident := lit "C"; it_imports := []; it_block := lit "export type C = null;" |}.
+Example C05_nonvacuous :
+  forallb wf_item [exA; exB; exC] = true /\
+  file_after [exB; exC; exA] = Ok (Some (canonical_file [exA; exB; exC])) /\
+  file_after [exA; exB; exC; exB] = Ok (Some (canonical_file [exA; exB; exC])).
+Proof. vm_compute. repeat split. Qed.
